@@ -794,8 +794,20 @@ pub(crate) fn parse_year_month(source: &str) -> TemporalResult<IxdtfParseRecord>
 #[inline]
 pub(crate) fn parse_month_day(source: &str) -> TemporalResult<IxdtfParseRecord> {
     let md_record = parse_ixdtf(source, ParseVariant::MonthDay);
-    // Error needs to be a RangeError
-    md_record.map_err(|e| TemporalError::range().with_message(format!("{e}")))
+
+    if let Ok(md) = md_record {
+        return Ok(md);
+    }
+
+    // TemporalMonthDayString also admits a full date(-time) string, as
+    // TemporalYearMonthString does.
+    let dt_parse = parse_date_time(source);
+
+    match dt_parse {
+        Ok(dt) => Ok(dt),
+        // Format and return the error from parsing MonthDay (a RangeError).
+        _ => md_record.map_err(|e| TemporalError::range().with_message(format!("{e}"))),
+    }
 }
 
 #[inline]
